@@ -25,7 +25,7 @@ WRITE_KINDS = ("W", "A", "ZW", "ZTW")
 # ---------------------------------------------------------------------------
 
 def cfg_key(c):
-    return "%s%s-rm%d-csv%d-keep%d" % (c["search"], c.get("updates", ""), c["remove_files"], c["csv"], c["keep_internal"])
+    return ("db-" if c.get("db") else "") + "%s%s-rm%d-csv%d-keep%d" % (c["search"], c.get("updates", ""), c["remove_files"], c["csv"], c["keep_internal"])
 
 
 def all_configs():
@@ -118,6 +118,9 @@ def gen_cases(ctx, configs, probes):
         for pt in rerun:
             for v in variants_of(pt[0]):
                 cases.append(history(c, [FULL, crash(pt, v), FULL]))
+    # (1b) DatabasePaths: re-run of a completed fit through a database session (oracle only, not modelled)
+    for u in (1, 2):
+        cases.append(history({"search": "lbfgs", "updates": u, "remove_files": 1, "csv": 0, "keep_internal": 1, "db": 1}, [FULL, FULL, FULL]))
     # (2) random multi-crash histories over every configuration
     n_multi = 1500 if thorough else 90
     for i in range(n_multi):
@@ -146,6 +149,8 @@ def gen_cases(ctx, configs, probes):
 def labels(case):
     """Labels of the situations a history contains, from its specification alone."""
     out = set()
+    if case.get("db"):
+        return ["database-paths"]
     crashes = [r["crash"] for r in case["runs"] if r.get("crash")]
     for cr in crashes:
         if cr["kind"] in ("ZW",) and cr["variant"] in ("empty", "half"):
@@ -202,8 +207,33 @@ def stored_tag(fs, csv):
     return None
 
 
+def oracle_db(case, res):
+    """DatabasePaths (session=...): uninterrupted runs only; the re-run must return what the first run returned."""
+    fails = []
+    runs = res["runs"]
+    for i, run in enumerate(runs):
+        if run["outcome"] != "ok":
+            fails.append((run["outcome"], "run %d with a database session did not terminate normally: %s %s" % (i, run["outcome"], run.get("msg"))))
+    oks = [r for r in runs if r["outcome"] == "ok"]
+    if len(oks) >= 2:
+        o = oks[0]["result"]
+        for i, run in enumerate(oks[1:], 1):
+            r = run["result"]
+            if run["evals"] != 0:
+                fails.append(("resampled", "re-run %d evaluated the likelihood although the fit was complete in the database" % i))
+            if r["summary_ll"] is None:
+                fails.append(("no-summary", "re-run %d returns a result without samples summary / best-fit instance (first run: %s)" % (i, o["summary_ll"])))
+            elif r["summary_ll"] != o["summary_ll"] or r["instance"] != o["instance"]:
+                fails.append(("result-changed", "re-run %d reports best fit %s, the first run %s" % (i, r["summary_ll"], o["summary_ll"])))
+            if (r["samples_ll"] is None) or len(r["samples_ll"]) != len(o["samples_ll"]) or not all(close(a, b) for a, b in zip(r["samples_ll"], o["samples_ll"])):
+                fails.append(("samples-changed", "re-run %d returns other samples than the first run stored" % i))
+    return fails
+
+
 def oracle(case, res):
     """Direct statement of C06 on what the implementation did. Returns a list of (signature, message)."""
+    if case.get("db"):
+        return oracle_db(case, res)
     fails = []
     done = None          # (run index, generation) at which the fit became complete (.completed with its result files)
     ref = None           # first result returned after / at completion
@@ -412,6 +442,8 @@ def run_histories(cases, chunk=None):
 def nontrivial(case, res):
     """At least one run was really killed, and a later run ran to its end."""
     outs = [r["outcome"] for r in res["runs"]]
+    if case.get("db"):
+        return len(outs) >= 2
     if "crashed" not in outs:
         return False
     i = outs.index("crashed")
@@ -505,6 +537,8 @@ def run(ctx):
         for sig, msg in fails:
             ctx.oracle["failures"] += 1
             ctx.failure("oracle", msg, c, classes=["%s:%s" % (l, sig) for l in lab], impl=compact(res))
+        if c.get("db"):
+            continue
         try:
             coq_cases.append(coq_case(c, res, flags))
             coq_idx.append((i, bool(fails)))
